@@ -595,7 +595,49 @@ def loops_program():
     return {"functions": F}
 
 
+def recv_program():
+    """Method receivers (C13): plain, subclass, value-equal, unhashable, decorated, property."""
+
+    def body(local):
+        return [["bind", local, V], use(local, "p"), ["ret", var(local)]]
+
+    classes = [
+        {"name": "K", "methods": [fn("meth", ["self", "p"], body("x"))]},
+        {"name": "Sub", "base": "K", "init": False, "methods": [fn("other", ["self", "p"], body("y"))]},
+        {"name": "E", "eq": "eq", "methods": [fn("meth", ["this", "p"], body("x"))]},
+        {"name": "N", "eq": "nohash", "methods": [fn("meth", ["self", "p"], body("x"))]},
+        {
+            "name": "W",
+            "methods": [
+                fn("dm", ["me", "p"], body("x"), kind="deco"),
+                fn("prop", ["self"], [["bind", "x", V], use("x"), ["ret", var("x")]], kind="prop"),
+            ],
+            "nested": [{"name": "In", "methods": [fn("meth", ["self", "p"], body("x"))]}],
+        },
+    ]
+    F = [
+        fn("meth", ["p"], body("x")),  # plain namesake of the methods
+        fn("other", ["p"], body("y")),
+    ]
+    inst = [
+        {"name": "k1", "cls": "K", "key": 1},
+        {"name": "k2", "cls": "K", "key": 1},
+        {"name": "s1", "cls": "Sub", "key": 1},
+        {"name": "e1", "cls": "E", "key": 7},
+        {"name": "e2", "cls": "E", "key": 7},
+        {"name": "e3", "cls": "E", "key": 8},
+        {"name": "n1", "cls": "N", "key": 7},
+        {"name": "n2", "cls": "N", "key": 7},
+        {"name": "w1", "cls": "W", "key": 1},
+        {"name": "w2", "cls": "W", "key": 2},
+        {"name": "i1", "cls": "W.In", "key": 1},
+        {"name": "i2", "cls": "W.In", "key": 1},
+    ]
+    return {"functions": F, "classes": classes, "instances": inst}
+
+
 PROGRAMS = {
+    "recv": recv_program,
     "loops": loops_program,
     "forms": forms_program,
     "calltree": calltree_program,
